@@ -61,9 +61,10 @@ func checkC15(c *Ctx, r *Report) {
 	checkECIUnknownIsFormatError(c, r)
 	checkECIEmission(c, r)
 	checkGuessUTF8(c, r)
+	checkGuessHint(c, r)
 	checkByteSegmentTranscode(c, r)
 	checkHintForwarding(c, r) // a CHARACTER_SET decode hint must reach every retry
-	checkQRSegments(c, r) // Kanji mode (chosen under a Shift_JIS hint): the double-byte arithmetic of writer and reader are inverse
+	checkQRSegments(c, r)     // Kanji mode (chosen under a Shift_JIS hint): the double-byte arithmetic of writer and reader are inverse
 	r.Note("not decided: charset guessing over whole texts (only single well-formed multi-byte characters, S-GUESS); per-charset transcoding (golang.org/x/text)")
 }
 
@@ -448,7 +449,6 @@ func blockOf(body *ast.BlockStmt, st ast.Stmt) []ast.Stmt {
 	return out
 }
 
-
 func checkECIEmission(c *Ctx, r *Report) {
 	r.Rule("M-ECIEMIT", "Encoder_encode: an unknown CHARACTER_SET name is refused; the ECI header is appended exactly under (byte mode and hint present), on the header bits and before the mode indicator, for the registry entry of the same encoding object that encodes the bytes; appendECI emits the ECI mode indicator in 4 bits and the entry's value in 8 bits", 4)
 	fd, p := c.funcDeclOf("qrcode/encoder", "Encoder_encode")
@@ -505,7 +505,8 @@ func checkECIEmission(c *Ctx, r *Report) {
 		ec := eciCalls[0]
 		var modeCall *ast.CallExpr
 		for _, mc := range modeCalls {
-			if identObj(p, mc.Args[0]) != nil && identObj(p, mc.Args[0]).Name() == "mode" {
+			// the segment's mode: a local variable (the FNC1 indicator is written from a package-level constant)
+			if v, isV := identObj(p, mc.Args[0]).(*types.Var); isV && v.Pkg() != nil && v.Parent() != v.Pkg().Scope() {
 				modeCall = mc
 			}
 		}
@@ -550,6 +551,37 @@ func checkECIEmission(c *Ctx, r *Report) {
 				if as, ok := ifs.Init.(*ast.AssignStmt); ok {
 					eciVar = identObj(p, as.Lhs[0])
 				}
+			}
+		}
+		// every other condition on the way to appendECI holds whenever the lookup found an entry: the header is not
+		// withheld for some registered character sets
+		var lookupOK, lookupEntry types.Object
+		ast.Inspect(fd.Body, func(n ast.Node) bool {
+			if as, ok := n.(*ast.AssignStmt); ok && len(as.Rhs) == 1 && len(as.Lhs) == 2 {
+				if call, ok := as.Rhs[0].(*ast.CallExpr); ok && isFuncNamed(typeutil.Callee(p.TypesInfo, call), "common", "GetCharacterSetECI") {
+					lookupEntry, lookupOK = identObj(p, as.Lhs[0]), identObj(p, as.Lhs[1])
+				}
+			}
+			return true
+		})
+		for _, e := range gi.Enclosing {
+			ifs, ok := e.Node.(*ast.IfStmt)
+			if !ok || (hasHintObj != nil && usesIdent(p, ifs.Cond, hasHintObj)) || bad != "" {
+				continue
+			}
+			env := map[types.Object]*Val{}
+			if lookupOK != nil {
+				env[lookupOK] = vbool(true)
+			}
+			if lookupEntry != nil {
+				env[lookupEntry] = &Val{K: VStruct, Ptr: true, Fields: map[string]*Val{}}
+			}
+			v, err := c.rpfExpr(p, ifs.Cond, env, nil)
+			switch {
+			case err != nil:
+				bad = fmt.Sprintf("the ECI header is appended only under `%s`, which depends on more than whether the registry has an entry for the character set (%v): a hinted character set can be written without its designator", types.ExprString(ifs.Cond), err)
+			case v.K != VBool || v.B != e.Branch:
+				bad = fmt.Sprintf("the ECI header is not appended when the registry has an entry for the hinted character set (condition `%s`)", types.ExprString(ifs.Cond))
 			}
 		}
 		// the entry comes from GetCharacterSetECI(encoding) on the same encoding object used by appendBytes
@@ -805,4 +837,101 @@ func checkByteSegmentTranscode(c *Ctx, r *Report) {
 		bad = "no successful return found"
 	}
 	r.Check(bad == "", "M-TRANSCODE", key, c.pos(f.Pos()), bad)
+}
+
+// M-GUESSHINT: a CHARACTER_SET decode hint decides the character set whatever the bytes look like
+func checkGuessHint(c *Ctx, r *Report) {
+	r.Rule("M-GUESSHINT", "StringUtils_guessCharset, folded from source with a CHARACTER_SET hint, answers the hinted character set - given as an encoding object, or as a registered name resolved through GetCharacterSetECIByName(...).GetCharset() - for every byte text of the sample, which includes texts that start with a UTF-16 or UTF-8 byte-order mark, well-formed UTF-8, Shift_JIS lead bytes, plain ASCII and the empty text: the hint is consulted before anything is inferred from the bytes", 1)
+	fd, p := c.funcDeclOf("common", "StringUtils_guessCharset")
+	key := "common.StringUtils_guessCharset/hint"
+	if fd == nil {
+		r.AnchorLost("M-GUESSHINT", key, "function not found")
+		return
+	}
+	r.Analysed(key)
+	hk, ok := constValIn(c, "", "DecodeHintType_CHARACTER_SET")
+	if !ok {
+		r.Undecided("M-GUESSHINT", key, c.pos(fd.Pos()), "DecodeHintType_CHARACTER_SET is not a constant")
+		return
+	}
+	texts := [][]byte{{}, {0x41}, {0x41, 0x42, 0x43}, {0xFE, 0xFF, 0x00, 0x41}, {0xFF, 0xFE, 0x41, 0x00}, {0xFE, 0xFF, 0x41}, {0xEF, 0xBB, 0xBF, 0x41}, {0xC3, 0xA9}, {0xC3, 0xA9, 0xC3, 0xA9, 0x41}, {0x83, 0x41, 0x83, 0x42}, {0xE9, 0x20, 0xE9}, {0xFF, 0xFE, 0xFF, 0xFE}}
+	bad := ""
+	folds := 0
+	for _, byName := range []bool{false, true} {
+		for _, text := range texts {
+			if bad != "" {
+				break
+			}
+			lst := &Val{K: VList}
+			for _, b := range text {
+				lst.L = append(lst.L, &Val{K: VInt, I: int64(b), T: types.Typ[types.Byte]})
+			}
+			hint, want := vstr("enc:hinted"), "enc:hinted"
+			if byName {
+				hint, want = vstr("X-NAME"), "eci:X-NAME"
+			}
+			hints := &Val{K: VStruct, Fields: map[string]*Val{fmt.Sprint(hk): hint}}
+			h := &rpf{unroll: 1000}
+			h.assertHook = func(rr *rpf, ta *ast.TypeAssertExpr, v *Val) (bool, bool) {
+				return v.K == VStr && strings.HasPrefix(v.S, "enc:"), true
+			}
+			h.selHook = func(rr *rpf, sel *ast.SelectorExpr) (*Val, bool) {
+				if id, ok := sel.X.(*ast.Ident); ok {
+					if pn, isPkg := rr.p.TypesInfo.Uses[id].(*types.PkgName); isPkg && !strings.HasPrefix(pn.Imported().Path(), modPath) {
+						if _, isVar := rr.p.TypesInfo.Uses[sel.Sel].(*types.Var); isVar {
+							return vstr(pn.Imported().Name() + "." + sel.Sel.Name), true
+						}
+					}
+				}
+				return nil, false
+			}
+			h.callHook = func(rr *rpf, call *ast.CallExpr, callee types.Object) (*Val, bool) {
+				if fn, ok := callee.(*types.Func); ok {
+					switch {
+					case fn.Pkg() != nil && fn.Pkg().Path() == "fmt" && fn.Name() == "Sprintf" && len(call.Args) == 2:
+						if f := rr.expr(call.Args[0]); f.K == VStr && f.S == "%v" {
+							return rr.expr(call.Args[1]), true
+						}
+					case fn.Pkg() != nil && fn.Pkg().Path() == "golang.org/x/text/encoding/unicode" && fn.Name() == "UTF16":
+						return vstr("UTF-16 (inferred from a byte-order mark)"), true
+					case isMethodNamed(fn, "common", "CharacterSetECI", "GetCharset"):
+						if sel, ok := call.Fun.(*ast.SelectorExpr); ok {
+							if e := rr.expr(sel.X); e.K == VStruct && e.Fields["name"] != nil {
+								return vstr("eci:" + e.Fields["name"].S), true
+							}
+						}
+					}
+				}
+				return errCtorHook(rr, call, callee)
+			}
+			h.multiHook = func(call *ast.CallExpr, callee types.Object) ([]*Val, bool) {
+				if isFuncNamed(callee, "common", "GetCharacterSetECIByName") && len(call.Args) == 1 {
+					n := rpfCurrent.expr(call.Args[0])
+					if n.K == VStr {
+						return []*Val{{K: VStruct, Ptr: true, Fields: map[string]*Val{"name": vstr(n.S)}}, vbool(true)}, true
+					}
+				}
+				return nil, false
+			}
+			res, err := c.rpfCall(fd, p, []*Val{lst, hints}, h)
+			folds++
+			how := "an encoding object"
+			if byName {
+				how = "a registered name"
+			}
+			if err != nil {
+				bad = "?" + err.Error()
+				break
+			}
+			if len(res) != 2 || res[1].K != VNil || res[0].K != VStr || res[0].S != want {
+				got := "an error"
+				if len(res) == 2 && res[0].K == VStr {
+					got = res[0].S
+				}
+				bad = fmt.Sprintf("with a CHARACTER_SET hint given as %s, the bytes [% x] are read as %s, not the hinted character set", how, text, got)
+			}
+		}
+	}
+	r.Extra("M-GUESSHINT folds", folds)
+	reportFold(r, c, "M-GUESSHINT", key, fd.Pos(), bad)
 }
